@@ -38,7 +38,9 @@ func (s *verifRecvSink) Close() {
 
 type verifRecvFactory struct{ sink *verifRecvSink }
 
-func (f *verifRecvFactory) NewSink(addr string, n base.ClientNumber) base.MessageReceiverSink { return f.sink }
+func (f *verifRecvFactory) NewSink(addr string, n base.ClientNumber) base.MessageReceiverSink {
+	return f.sink
+}
 
 // verifConnScenario: a stream of single-line records cut into fragments, with
 // read timeouts (flush ticks) at symbolic places; the connection ends by EOF or
